@@ -94,6 +94,37 @@ def scenario(verts, B, rev, rnd, n_q=6):
     return None
 
 
+def scenario_two(verts_a, verts_b, B, rev, rnd):
+    """two indexes alive at once, interleaved queries and removals: an index must not depend on state shared with another instance
+    (class-level containers mutated in place; seed C13-17)"""
+    ia = sg.Index([list(v) for v in verts_a], B, rev)
+    live_a = set(range(len(verts_a)))
+    ib = sg.Index([list(v) for v in verts_b], B, rev)
+    live_b = set(range(len(verts_b)))
+    qs = [(rnd.uniform(-2, 6), rnd.uniform(-2, 6)) for _ in range(4)] + [(0, 0), (-30, -30), (40, 2), (3, 3)]
+    both = [(ia, live_a, 'A'), (ib, live_b, 'B')]
+    hist = []
+    for _ in range(len(verts_a) + len(verts_b) + 1):
+        for idx, live, nm in both:
+            r = check_inv(idx, live)
+            if r:
+                return r + f' (index {nm} of two live indexes, history {hist})'
+            for q in qs:
+                r = check_query(idx, live, q)
+                if r:
+                    return r + f' (index {nm} of two live indexes, history {hist})'
+        idx, live, nm = both[rnd.randrange(2)]
+        if not live:
+            idx, live, nm = both[0] if live_a else both[1]
+        if not live:
+            break
+        victim = rnd.choice(sorted(live))
+        idx.remove_path(victim)
+        live.discard(victim)
+        hist.append((nm, victim))
+    return None
+
+
 def bounded(payload):
     tier = payload.get('tier', 'quick')
     rnd = random.Random(payload.get('seed', 0))
@@ -110,6 +141,7 @@ def bounded(payload):
     for _ in range(150 if tier == 'quick' else 1500):
         k = rnd.randint(3, 7)
         cases.append([(rnd.choice(pts), rnd.choice(pts)) for _ in range(k)])
+    prev = None
     for verts in cases:
         for B in ((1, 2, 3, 4) if tier != 'quick' else (1, 3, 4)):
             for rev in (False, True):
@@ -126,8 +158,22 @@ def bounded(payload):
                 if r:
                     return {'found': True, 'input': {'vertices': verts, 'bins_per_side': B, 'reverse': rev}, 'observed': r, 'expected': 'Inv and brute-force agreement', 'tried': tried}
                 configs.add((B, rev, len(verts)))
+                if prev is not None and tried % 4 == 0 and prev[1]:
+                    other = prev[0]
+                    oxs = [v[0][0] for v in other] + ([v[1][0] for v in other] if rev else [])
+                    oys = [v[0][1] for v in other] + ([v[1][1] for v in other] if rev else [])
+                    if (max(oxs) - min(oxs)) + (max(oys) - min(oys)) != 0:
+                        tried += 1
+                        try:
+                            r = scenario_two(verts, other, B, rev, rnd)
+                        except Exception as ex:   # noqa
+                            r = f'raised {type(ex).__name__}: {ex}'
+                        if r:
+                            return {'found': True, 'input': {'vertices': verts, 'second_index_vertices': other, 'bins_per_side': B, 'reverse': rev},
+                                    'observed': r, 'expected': 'Inv and brute-force agreement for each of two live indexes', 'tried': tried}
+        prev = (verts, True)
     return {'found': False, 'tried': tried, 'distinct': len(configs),
-            'bound': f'{len(cases)} vertex sets (1-2 paths exhaustive on a 4x4 lattice subsample, 3-7 paths random) x bins per side x reverse; each with a full random removal history and 9 queries per step'}
+            'bound': f'{len(cases)} vertex sets (1-2 paths exhaustive on a 4x4 lattice subsample, 3-7 paths random) x bins per side x reverse; each with a full random removal history and 9 queries per step; every 4th configuration additionally as TWO live indexes with interleaved removals and queries'}
 
 
 def search(payload):
